@@ -667,7 +667,7 @@ func pointCaseRun(c *pointCase) {
 // ---------------------------------------------------------------- generators
 
 var statusPool = []int{200, 201, 202, 204, 400, 401, 403, 404, 405, 408, 409, 416, 429, 499, 500, 501, 502, 503, 504, 599, 0, 600}
-var retryAfterPool = []string{"", "", "", "1", "2", "120", "0", "-5", "abc", "99999999999999999999", "9223372036", "9223372037", "+3", " 3", "3 ", "3.5", "0x10", "1_0", "007", "-", "+", "18446744073709551617", "-99999999999999999999"}
+var retryAfterPool = []string{"", "", "", "1", "2", "120", "0", "-5", "abc", "99999999999999999999", "9223372036", "9223372037", "+3", " 3", "3 ", "3.5", "0x10", "1_0", "007", "-", "+", "18446744073709551617", "-99999999999999999999", "Wed, 21 Oct 2015 07:28:00 GMT", "\t5", "5s", "٣"}
 
 func genBehaviour(r *common.Rand, forAuth bool, evenLat bool) behaviour {
 	b := behaviour{Kind: "S", Read: -1}
